@@ -10,7 +10,7 @@ set -e
 if [ -z "$MT_LOCKED" ]; then
   pid=$$
   while [ -n "$pid" ] && [ "$pid" != "1" ] && [ "$pid" != "0" ]; do
-    if tr '\0' ' ' < /proc/$pid/cmdline 2>/dev/null | grep -q "flock /tmp/mt.lock"; then MT_LOCKED=1; break; fi
+    if tr '\0' ' ' < /proc/$pid/cmdline 2>/dev/null | grep -q "flock.*/tmp/mt.lock"; then MT_LOCKED=1; break; fi
     pid=$(awk '{print $4}' /proc/$pid/stat 2>/dev/null)
   done
 fi
